@@ -375,6 +375,8 @@ type AlignCase struct {
 	// Light: a megabase-cell case; only the call itself is checked (no swapped, repeated,
 	// self-aligned or refilled calls).
 	Light bool `json:"light,omitempty"`
+	// FirstCall: the named function is run as the first call into its package in a fresh process
+	FirstCall string `json:"first_call,omitempty"`
 }
 
 // runAlignOn calls Global or Local on the caller's own two slices (which hold c.A and c.B).
